@@ -17,7 +17,7 @@ LEVEL = "exploration"
 RTOL = 1e-10
 
 SRC = ["pol2", "pol3", "pol3b", "pol5", "meshT", "meshC", "meshC2", "meshC3", "tet", "cub", "seg", "circ", "cyl", "cusA", "cusB"]
-OBS = ["p1", "p2", "s2", "pin"]
+OBS = ["p1", "p2", "s2", "pin", "srot"]
 FIELDS = ["B", "H", "J"]
 
 CUBE_V = np.array([(x, y, z) for x in (-1, 1) for y in (-1, 1) for z in (-1, 1)], float) * 0.5
@@ -100,6 +100,14 @@ def mk_obs(kind):
         return np.array(PTS["pin"][0]), [np.array(PTS["pin"])]
     if kind == "p2":
         return np.array(PTS["p2"]), [np.array(PTS["p2"])]
+    if kind == "srot":  # two sensors with rotating paths (one returns to its first orientation, one +a/-a)
+        from scipy.spatial.transform import Rotation as R
+
+        s1 = magpy.Sensor(pixel=[(0.0, 0, 0), (0.3, 0.1, -0.2)], position=[(0.1, 0.1, 0.1)] * 3,
+                          orientation=R.from_rotvec([(0, 0, 0), (0, 0.5, 0), (0, 0, 0)]))
+        s2 = magpy.Sensor(pixel=[(0.0, 0, 0), (0, 0.4, 0)], position=[(1.5, -0.2, 0.7), (1.4, -0.2, 0.7)],
+                          orientation=R.from_rotvec([(0, 0, -0.6), (0, 0, 0.6)]), handedness="left")
+        return [s1, s2], "sensors"
     if kind == "s2":
         s1 = magpy.Sensor(pixel=[(0.0, 0, 0), (0.3, 0.1, -0.2)], position=(0.1, 0.1, 0.1))
         s2 = magpy.Sensor(pixel=[(0.0, 0, 0), (0, 0.4, 0)], position=(1.5, -0.2, 0.7))
@@ -137,6 +145,8 @@ def run_compose(c):
         got_sq = getattr(magpy, "get" + field)(srcs, obs, squeeze=True) if c.get("squeeze_too") else None
     except Exception as e:
         return f"raised {type(e).__name__}: {e}"[:200]
+    if groups == "sensors":
+        return compose_with_sensor_paths(c, srcs, obs, got)
     M = max(pl for _, pl in c["srcs"])
     npix = len(groups[0])
     shape = (len(srcs), M, len(groups), npix, 3) if c["obs"] in ("s2", "p2") else (len(srcs), M, 1, 1, 3)
@@ -160,6 +170,37 @@ def run_compose(c):
     if got_sq is not None:
         if got_sq.shape != np.squeeze(exp).shape or not np.array_equal(got_sq, np.squeeze(got)):
             return f"squeeze=True is not np.squeeze of the full result: {got_sq.shape}"
+    return None
+
+
+def compose_with_sensor_paths(c, srcs, sensors, got):
+    """element (l,m,k) = static source l at pose min(m,.) seen by a static copy of sensor k at its pose min(m,.)"""
+    import magpylib as magpy
+
+    field = c["field"]
+    M = max([pl for _, pl in c["srcs"]] + [len(s._position) for s in sensors])
+    shape = (len(srcs), M, len(sensors), 2, 3)
+    if got.shape != shape:
+        return f"shape {got.shape} != expected {shape}"
+    exp = np.empty(shape)
+    for l, (k, pl) in enumerate(c["srcs"]):
+        for m in range(M):
+            src = mk(k, at=min(m, pl - 1))
+            for si, s in enumerate(sensors):
+                ms = min(m, len(s._position) - 1)
+                key = (k, min(m, pl - 1), "srot", si, ms, field)
+                if key not in _CACHE:
+                    stat = magpy.Sensor(pixel=s.pixel, position=s._position[ms], orientation=s._orientation[ms],
+                                        handedness=s.handedness)
+                    _CACHE[key] = getattr(magpy, "get" + field)(src, stat)
+                exp[l, m, si] = _CACHE[key]
+    scale = np.max(np.abs(exp), axis=(1, 2, 3, 4), keepdims=True)
+    scale = np.where(scale == 0, 1.0, scale)
+    err = np.abs(got - exp) / scale
+    if not np.all(err <= RTOL):
+        idx = np.unravel_index(np.nanargmax(np.where(np.isnan(err), np.inf, err)), err.shape)
+        return (f"element differs rel={err[idx]:.3g} at (l,m,k,pix,xyz)={tuple(int(i) for i in idx)} "
+                f"source={c['srcs'][idx[0]][0]} got={got[idx]:.6g} exp={exp[idx]:.6g}")
     return None
 
 
@@ -243,10 +284,10 @@ def enumerate_cases(tier):
         for ks in itertools.product(pool, repeat=n):
             for pls in itertools.product(plens if n < 3 else [1, 3], repeat=n):
                 for obs in OBS:
-                    if n == 3 and obs in ("s2",):
+                    if n == 3 and obs in ("s2", "srot"):
                         continue
                     for field in FIELDS:
-                        if field == "J" and ((obs == "s2" and n > 1) or any(k.startswith("cus") for k in ks)):
+                        if field == "J" and ((obs in ("s2", "srot") and n > 1) or any(k.startswith("cus") for k in ks)):
                             continue
                         cases.append({"part": "compose", "srcs": [list(x) for x in zip(ks, pls)], "obs": obs, "field": field,
                                       "squeeze_too": obs in ("p1", "s2")})
